@@ -96,6 +96,10 @@ pub struct Scn {
     /// the daemon is stopped with SIGINT instead of SIGTERM
     #[serde(default)]
     pub term_sigint: bool,
+    /// `[[tsig_keys]]` tables of the configuration from step `.0` on: 1 = one ordinary key,
+    /// 2 = a key whose secret is the empty string (legal), 3 = two keys (SHA-1 and SHA-256)
+    #[serde(default)]
+    pub tsig_keys: (usize, u8),
 }
 pub struct C31;
 
@@ -327,7 +331,8 @@ impl Prop for C31 {
                 }
             }
         }
-        Scn { steps, fs_faults, concurrent_queries, strategy, daemon, daemon_io, double_hup, term_sigint }
+        let tsig_keys = if chance(r, 25) { (r.below(nsteps as u64) as usize, range(r, 1, 3) as u8) } else { (0, 0) };
+        Scn { steps, fs_faults, concurrent_queries, strategy, daemon, daemon_io, double_hup, term_sigint, tsig_keys }
     }
     fn plan(r: &mut SplitMix, s: &Scn) -> ExecPlan {
         let strategy = if s.daemon != 0 {
@@ -433,7 +438,7 @@ impl Prop for C31 {
         "E3 simrt-sequential (+ E1 query threads during reloads in a quarter of the runs; whole daemon on E1 in a sixth of the runs)"
     }
     fn expected_probes() -> Vec<&'static str> {
-        vec!["c31_reload_failed_as_a_whole", "c31_zone_kept_old_data", "c31_zone_servfail", "c31_mtime_skip", "c31_zone_removed", "c31_child_failed_parent_served", "c31_path_changed", "c31_concurrent_reload", "c31_concurrent_query_saw_old_state", "c31_loaded_with_include", "c31_transient_eio_cleared", "c31d_daemon_runs", "c31d_double_sighup"]
+        vec!["c31_reload_failed_as_a_whole", "c31_zone_kept_old_data", "c31_zone_servfail", "c31_mtime_skip", "c31_zone_removed", "c31_child_failed_parent_served", "c31_path_changed", "c31_concurrent_reload", "c31_concurrent_query_saw_old_state", "c31_loaded_with_include", "c31_transient_eio_cleared", "c31d_daemon_runs", "c31d_double_sighup", "c31_config_with_tsig_keys"]
     }
 }
 
@@ -569,6 +574,20 @@ pub(crate) fn next_model(before: &BTreeMap<usize, Served>, step: &Step, files: &
     (served, alt)
 }
 
+/// The `[[tsig_keys]]` tables of the configuration at step `si` (keys are reloaded together with
+/// the zones; whatever they are, they must not change what any zone serves).
+pub(crate) fn keys_toml(scn: &Scn, si: usize) -> String {
+    if scn.tsig_keys.1 == 0 || si < scn.tsig_keys.0 {
+        return String::new();
+    }
+    simrt::probe("c31_config_with_tsig_keys");
+    match scn.tsig_keys.1 {
+        1 => "[[tsig_keys]]\nname = \"k1.example.\"\nalgorithm = \"hmac-sha256\"\nsecret = \"c2VjcmV0IHNlY3JldCBzZWNyZXQ=\"\n".to_string(),
+        2 => "[[tsig_keys]]\nname = \"empty.example.\"\nalgorithm = \"hmac-sha256\"\nsecret = \"\"\n".to_string(),
+        _ => "[[tsig_keys]]\nname = \"k1.example.\"\nalgorithm = \"hmac-sha1\"\nsecret = \"AAECAwQFBgcICQ==\"\n[[tsig_keys]]\nname = \"k2.example.\"\nalgorithm = \"hmac-sha256\"\nsecret = \"/////w==\"\n".to_string(),
+    }
+}
+
 /// `served` with every alternative applied.
 pub(crate) fn with_alts(served: &BTreeMap<usize, Served>, alt: &BTreeMap<usize, Served>) -> BTreeMap<usize, Served> {
     let mut s = served.clone();
@@ -692,7 +711,7 @@ fn run(scn: &Scn) {
         simrt::advance(Duration::from_secs(step.advance_s.max(1)));
         let now_s = simrt::time::wall_secs();
         apply_edits(step, now_s, &mut files);
-        write_config(step, cfg_path, "", "");
+        write_config(step, cfg_path, "", &keys_toml(scn, si));
         // --- reference model of the state after this step (the outcome depends only on the
         //     configuration and the files, both known before the reload runs) ------------------
         let expect_ok = step.config_fault == 0;
